@@ -98,6 +98,14 @@ pub fn handshake_next_state(payload: &[u8]) -> Option<i32> {
     c.varint()?; c.bytes()?; c.take(2)?; c.varint()
 }
 
+/// (server address, server port) of a handshake frame payload
+pub fn handshake_host_port(payload: &[u8]) -> Option<(Vec<u8>, u16)> {
+    let mut c = Cur(payload);
+    if c.varint()? != 0 { return None; }
+    c.varint()?; let h = c.bytes()?; let p = c.take(2)?;
+    Some((h, u16::from_be_bytes([p[0], p[1]])))
+}
+
 /// (key, payload) of a login-phase Cookie Response frame payload
 pub fn login_cookie_response(payload: &[u8]) -> Option<(Vec<u8>, Option<Vec<u8>>)> {
     let mut c = Cur(payload);
